@@ -75,9 +75,13 @@ def main(argv=None):
         ck, mod, an, viol, kn = evaluate(prop, args.root, args.tier)
         selfval = None
         sweep = None
+        equiv = None
         if args.tier == "thorough" and args.root is None:
             from sa.selfval import self_validate
             selfval = self_validate(prop, seed)
+            if not os.environ.get("VERIF_NO_EQUIV"):
+                from sa.equiv import sweep as equivalence_sweep
+                equiv = equivalence_sweep(prop)
             if not os.environ.get("VERIF_NO_SWEEP"):
                 from sa.mutate import sweep as mutation_sweep
                 sweep = mutation_sweep(prop)
@@ -102,7 +106,7 @@ def main(argv=None):
                 for line in w[:12]:
                     out_lines.append(f"    | {line}")
         if not args.no_evidence and args.root is None:
-            write_evidence(prop, args.tier, seed, ck, mod, an, viol, kn, wall, selfval, sweep)
+            write_evidence(prop, args.tier, seed, ck, mod, an, viol, kn, wall, selfval, sweep, equiv)
         n_ok = sum(1 for o in ck.obs if o.ok)
         print(f"[{prop}] tier={args.tier} obligations={len(ck.obs)} discharged={n_ok} "
               f"known={len(kn)} violations={len(viol)} functions={an.stats['functions_analysed']} wall={wall:.2f}s")
@@ -115,8 +119,14 @@ def main(argv=None):
         if sweep is not None:
             print(f"[{prop}] operator-mutation sweep of the anchor functions (informational): {sweep['killed']}/{sweep['generated']} single-site mutants reported "
                   f"(ratio {sweep['kill_ratio']}); survivors include equivalent mutants and mutants the repository's own tests reject")
+        if equiv is not None:
+            print(f"[{prop}] equivalence sweep: {equiv['silent']}/{equiv['generated']} behaviour-preserving rewrites of the {len(equiv['functions'])} consulted functions analysed silently")
         for l in out_lines:
             print(l)
+        if equiv is not None and equiv["false_alarms"]:
+            for d, k, w in equiv["false_alarms"][:20]:
+                print(f"ANALYSIS-ERROR checker-self-validation: behaviour-preserving rewrite `{d}` is reported ({k}): {w[:200]}")
+            return 2
         if selfval is not None and not selfval["ok"]:
             for p in selfval["problems"]:
                 print("ANALYSIS-ERROR checker-self-validation:", p)
@@ -131,7 +141,7 @@ def main(argv=None):
         return 2
 
 
-def write_evidence(prop, tier, seed, ck, mod, an, viol, kn, wall, selfval, sweep=None):
+def write_evidence(prop, tier, seed, ck, mod, an, viol, kn, wall, selfval, sweep=None, equiv=None):
     res, tot = an.call_stats()
     n_ok = sum(1 for o in ck.obs if o.ok)
     distinct = len({(o.rule, o.name) for o in ck.obs})
@@ -168,6 +178,11 @@ def write_evidence(prop, tier, seed, ck, mod, an, viol, kn, wall, selfval, sweep
                                                   "functions, analysed statically; survivors include equivalent mutants and mutants the repository's own tests reject",
                                           "functions": sweep["functions"], "generated": sweep["generated"], "reported": sweep["killed"], "not_reported": sweep["survived"], "ratio": sweep["kill_ratio"],
                                           "not_reported_sample": sweep["survivors"][:60]}
+    if equiv is not None:
+        cov["equivalence_sweep"] = {"note": "every function the rules consulted, rewritten one site at a time with behaviour-preserving rewrites (rename a local, flip a comparison, invert an if, expand an augmented "
+                                            "assignment, hoist a temporary, else-after-return, split a chained comparison, reword a message ...) and analysed statically: a report on any of them is a false alarm "
+                                            "of the checker and fails the run as ANALYSIS-ERROR",
+                                    "functions": len(equiv["functions"]), "generated": equiv["generated"], "silent": equiv["silent"], "false_alarms": equiv["false_alarms"][:20]}
     ev = {
         "property_id": prop, "tier": tier, "seed": seed, "level": "other",
         "coverage": cov,
